@@ -655,4 +655,157 @@ theorem stop_announced_once (cfg : HCfg) (eval : σ → SFrame → σ × EvalRes
             refine ⟨some msg, rfl, by simp [run], ?_⟩
             simp [run, step, hd, he, stopped_inert]
 
+/-- C16: every `.register` the serve loop gets to is answered by exactly one frame: the
+    announcement `<name>.registered` (and an instance exists, subscribed at that point), or one
+    `<name>.unregistered` - script rejected, or a tail handler superseded before it subscribed -
+    and no instance -/
+theorem start_answers_once (parse : SFrame → Except String (HCfg × Resume)) (name : String)
+    (stream : List SFrame) (r : SFrame) :
+    (∃ st, startHandler parse name stream r = (stream ++ [registeredFrame st.cfg], some st) ∧
+        st.subAt = stream.length) ∨
+    (∃ e, parse r = .error e ∧
+        startHandler parse name stream r = (stream ++ [rejectedFrame name r e], none)) ∨
+    (∃ cfg f, parse r = .ok (cfg, .tail) ∧ laterTraffic cfg stream = some f ∧
+        startHandler parse name stream r = (stream ++ [unregistered cfg f none], none)) := by
+  unfold startHandler
+  cases hp : parse r with
+  | error e => right; left; exact ⟨e, rfl, rfl⟩
+  | ok cr =>
+    obtain ⟨cfg, resume⟩ := cr
+    simp only []
+    cases hl : (if resume = .tail then laterTraffic cfg stream else none) with
+    | none => left; exact ⟨⟨cfg, resume, stream.length⟩, rfl, rfl⟩
+    | some f =>
+      right; right
+      have ht : resume = .tail := by
+        by_cases h : resume = .tail
+        · exact h
+        · simp [h] at hl
+      subst ht
+      simp only [if_true] at hl
+      exact ⟨cfg, f, rfl, hl, rfl⟩
+
+/-- C16/C17 (`cov` of `restart_restores_active`, discharged): a started instance is handed every
+    later `.register` / `.unregister` of its name and context that is ever stored - whether it
+    was stored before the instance subscribed (history; impossible for a tail handler, which
+    would not have started) or after (live).  `pre` is the stream when it subscribed, `ext` what
+    was appended afterwards. -/
+theorem started_covers (parse : SFrame → Except String (HCfg × Resume)) (name : String)
+    (pre : List SFrame) (r : SFrame) (s' : List SFrame) (st : Started)
+    (h : startHandler parse name pre r = (s', some st)) (ext : List SFrame) (thr f : SFrame)
+    (hf : f ∈ s' ++ ext) (hctx : f.ctx = st.cfg.ctx) (hreg : isRegTraffic st.cfg f = true)
+    (hlater : st.cfg.id < f.id) (hres : ∀ x, st.resume = .after x → x < f.id) :
+    f ∈ subscription st.cfg st.resume pre ((s' ++ ext).drop st.subAt) thr := by
+  have hdrop := subscribed_before_announced parse name pre r s' st h ext
+  have hs' : s' = pre ++ [registeredFrame st.cfg] := by
+    unfold startHandler at h
+    split at h
+    · split at h
+      · injection h with _ h2; cases h2
+      · injection h with h1 h2; injection h2 with h2; subst h2; exact h1.symm
+    · injection h with _ h2; cases h2
+  rw [hdrop]
+  have hmem : f ∈ pre ∨ f ∈ registeredFrame st.cfg :: ext := by
+    rw [hs'] at hf
+    simp only [List.mem_append, List.mem_cons, List.not_mem_nil, or_false] at hf ⊢
+    rcases hf with (hf | hf) | hf
+    · exact Or.inl hf
+    · exact Or.inr (Or.inl hf)
+    · exact Or.inr (Or.inr hf)
+  have hlive : f ∈ registeredFrame st.cfg :: ext →
+      f ∈ (registeredFrame st.cfg :: ext).filter (fun g => g.ctx = st.cfg.ctx) := by
+    intro hm; exact List.mem_filter.mpr ⟨hm, by simpa using hctx⟩
+  unfold subscription
+  cases hr : st.resume with
+  | tail =>
+    simp only
+    rcases hmem with hp | hl
+    · have := started_tail_not_superseded parse name pre r s' st h hr f hp hctx hlater
+      rw [this] at hreg; cases hreg
+    · exact hlive hl
+  | head =>
+    simp only [List.mem_append, List.mem_cons]
+    rcases hmem with hp | hl
+    · exact Or.inl (List.mem_filter.mpr ⟨hp, by simpa using hctx⟩)
+    · exact Or.inr (Or.inr (hlive hl))
+  | after x =>
+    simp only [List.mem_append, List.mem_cons]
+    rcases hmem with hp | hl
+    · refine Or.inl (List.mem_filter.mpr ⟨List.mem_filter.mpr ⟨hp, by simpa using hctx⟩, ?_⟩)
+      simpa using hres x hr
+    · exact Or.inr (Or.inr (hlive hl))
+
+/-- C16 (at most one active instance per context and name): once a later `.register` or
+    `.unregister` of its name and context is in the stream, a started instance that has gone
+    through its subscription is stopped - whichever resume mode, wherever the frame fell -/
+theorem started_instance_replaced_is_stopped (parse : SFrame → Except String (HCfg × Resume)) (name : String)
+    (pre : List SFrame) (r : SFrame) (s' : List SFrame) (st : Started)
+    (h : startHandler parse name pre r = (s', some st)) (ext : List SFrame) (thr f : SFrame)
+    (hf : f ∈ s' ++ ext) (hctx : f.ctx = st.cfg.ctx) (hreg : isRegTraffic st.cfg f = true)
+    (hlater : st.cfg.id < f.id) (hres : ∀ x, st.resume = .after x → x < f.id)
+    (eval : σ → SFrame → σ × EvalRes) (env : σ) :
+    (run st.cfg eval .running env (subscription st.cfg st.resume pre ((s' ++ ext).drop st.subAt) thr)).1 = .stopped :=
+  run_stopped_of_regtraffic st.cfg eval .running env _ f
+    (started_covers parse name pre r s' st h ext thr f hf hctx hreg hlater hres) hreg hlater
+
+/-- what `Handler::from_frame` guarantees about the configuration it builds: the handler's id,
+    context and name are those of the `.register` frame -/
+def ParseOk (parse : SFrame → Except String (HCfg × Resume)) : Prop :=
+  ∀ r cfg res, parse r = .ok (cfg, res) →
+    cfg.id = r.id ∧ cfg.ctx = r.ctx ∧ classify r.topic = some (cfg.name, .register)
+
+theorem startHandler_cfg (parse : SFrame → Except String (HCfg × Resume)) (name : String)
+    (pre : List SFrame) (r : SFrame) (s' : List SFrame) (st : Started)
+    (h : startHandler parse name pre r = (s', some st)) :
+    parse r = .ok (st.cfg, st.resume) ∧ s' = pre ++ [registeredFrame st.cfg] := by
+  unfold startHandler at h
+  split at h
+  · rename_i cfg resume hp
+    split at h
+    · injection h with _ h2; cases h2
+    · injection h with h1 h2; injection h2 with h2; subst h2; exact ⟨hp, h1.symm⟩
+  · injection h with _ h2; cases h2
+
+/-- C17 for an instance the serve loop started (the `cov` hypothesis of `restart_restores_active`
+    is a theorem here): `P ++ r :: Q` is the stored stream when the loop got to `r` and the
+    instance subscribed, `ext` what was appended after `<name>.registered`.  If a
+    `<name>.unregistered` naming it is stored exactly when the instance has stopped (C16 and
+    quiescence), then a restart on the whole stream starts `r` again exactly when its instance
+    was still running. -/
+theorem restart_restores_started (parse : SFrame → Except String (HCfg × Resume)) (hparse : ParseOk parse)
+    (name : String) (P Q : List SFrame) (r : SFrame) (s' : List SFrame) (st : Started)
+    (h : startHandler parse name (P ++ r :: Q) r = (s', some st)) (ext : List SFrame) (thr : SFrame)
+    (hnd : (s' ++ ext).Nodup)
+    (later : ∀ f ∈ Q ++ registeredFrame st.cfg :: ext, r.id < f.id)
+    (hres : ∀ x, st.resume = .after x → x ≤ r.id)
+    (eval : σ → SFrame → σ × EvalRes) (env : σ)
+    (ann : (∃ f ∈ Q ++ registeredFrame st.cfg :: ext,
+              classify f.topic = some (st.cfg.name, .unregistered) ∧ f.ctx = st.cfg.ctx ∧
+              metaGet f.mdata "handler_id" = some (idText r.id)) ↔
+           (run st.cfg eval .running env
+              (subscription st.cfg st.resume (P ++ r :: Q) ((s' ++ ext).drop st.subAt) thr)).1 = .stopped) :
+    r ∈ compact (s' ++ ext) ↔
+      (run st.cfg eval .running env
+        (subscription st.cfg st.resume (P ++ r :: Q) ((s' ++ ext).drop st.subAt) thr)).1 = .running := by
+  obtain ⟨hp, hs'⟩ := startHandler_cfg parse name _ r s' st h
+  obtain ⟨hid, hctx, hcl⟩ := hparse r st.cfg st.resume hp
+  have hS : s' ++ ext = P ++ r :: (Q ++ registeredFrame st.cfg :: ext) := by
+    rw [hs']; simp
+  have hcov : ∀ f ∈ Q ++ registeredFrame st.cfg :: ext, f.ctx = r.ctx → isRegTraffic st.cfg f = true →
+      f ∈ subscription st.cfg st.resume (P ++ r :: Q) ((s' ++ ext).drop st.subAt) thr := by
+    intro f hf hfc hreg
+    apply started_covers parse name (P ++ r :: Q) r s' st h ext thr f
+    · rw [hS]
+      exact List.mem_append_right _ (List.mem_cons_of_mem _ hf)
+    · rw [hctx]; exact hfc
+    · exact hreg
+    · rw [hid]; exact later f hf
+    · intro x hx; exact Nat.lt_of_le_of_lt (hres x hx) (later f hf)
+  generalize subscription st.cfg st.resume (P ++ r :: Q) ((s' ++ ext).drop st.subAt) thr = inp at ann hcov ⊢
+  rw [hS] at hnd ⊢
+  refine restart_restores_active st.cfg eval env P (Q ++ registeredFrame st.cfg :: ext) inp r (r.ctx, st.cfg.name)
+    hnd ⟨hcl, rfl⟩ rfl hctx hid later hcov ?_
+  rw [hctx] at ann
+  exact ann
+
 end Xs.Serve
